@@ -57,7 +57,7 @@ deriving Inhabited
 
 /-- the cell lengths, stored angles (degrees), their cosines and sines and the unit-cell volume
 factor `V = √(1 + 2·ca·cb·cg − ca² − cb² − cg²)`: what lines 350–374 of `setLatPar` start from -/
-structure CellCS (α : Type) where
+@[ext] structure CellCS (α : Type) where
   a : α
   b : α
   c : α
